@@ -202,6 +202,13 @@ func (o *Obs) Settle(d time.Duration) {
 	}
 }
 
+// Len is the number of events logged so far.
+func (o *Obs) Len() int {
+	o.mu.Lock()
+	defer o.mu.Unlock()
+	return len(o.events)
+}
+
 func (o *Obs) Active() int {
 	o.mu.Lock()
 	defer o.mu.Unlock()
